@@ -314,7 +314,7 @@ func htmlProvenanceRule(r *Run, rule string) {
 }
 
 // htmlOrigin returns a justification when every origin of e is licensed.
-func htmlOrigin(w *World, info *types.Info, f *FuncInfo, e ast.Expr, rawFns map[*types.Func]bool, depth int) string {
+func htmlOrigin(w *World, info *types.Info, f *FuncInfo, e ast.Expr, rawFns map[*types.Func]bool, depth int, assume ...types.Object) string {
 	if depth > 6 {
 		return ""
 	}
@@ -330,7 +330,7 @@ func htmlOrigin(w *World, info *types.Info, f *FuncInfo, e ast.Expr, rawFns map[
 	if c, ok := e.(*ast.CallExpr); ok {
 		if t, isConv := isConversion(info, c); isConv && len(c.Args) == 1 {
 			if isBasicKind(t, types.String) {
-				return htmlOrigin(w, info, f, c.Args[0], rawFns, depth+1)
+				return htmlOrigin(w, info, f, c.Args[0], rawFns, depth+1, assume...)
 			}
 		}
 		cal := calleeOf(info, c)
@@ -338,13 +338,13 @@ func htmlOrigin(w *World, info *types.Info, f *FuncInfo, e ast.Expr, rawFns map[
 		case cal != nil && (cal.Name() == "Render" || cal.Name() == "Block" || cal.Name() == "BlockWith") && isRenderingFunc(cal):
 			return "output that already went through the sink (" + cal.Name() + ")"
 		case funcIs(cal, htmlTplPath, "JSEscapeString") && len(c.Args) == 1:
-			if in := htmlOrigin(w, info, f, c.Args[0], rawFns, depth+1); in != "" {
+			if in := htmlOrigin(w, info, f, c.Args[0], rawFns, depth+1, assume...); in != "" {
 				return "JS-escaped " + in
 			}
 		case cal != nil:
 			// a function of this module: every value it returns at that position must be licensed in its own body
 			if g := w.FuncOf(cal); g != nil && g.Decl.Body != nil {
-				return returnedOrigin(w, g, 0, rawFns, depth+1)
+				return returnedOrigin(w, g, 0, rawFns, depth+1, assume...)
 			}
 		}
 		return ""
@@ -355,10 +355,51 @@ func htmlOrigin(w *World, info *types.Info, f *FuncInfo, e ast.Expr, rawFns map[
 	}
 	// parameter of the function registered as raw
 	sig := f.Obj.Type().(*types.Signature)
+	for _, a := range assume {
+		if a == o {
+			return "the operand it transforms"
+		}
+	}
 	for i := 0; i < sig.Params().Len(); i++ {
 		if sig.Params().At(i) == o {
 			if rawFns[f.Obj] {
 				return "the parameter of the helper registered as raw (the explicit opt-out)"
+			}
+			// a parameter of an unexported function that is only ever called: what every call site passes
+			if !f.Obj.Exported() && sig.Recv() == nil {
+				var whys []string
+				n, okAll := 0, true
+				for _, g := range w.AllFuncs() {
+					ginfo := g.Pkg.TypesInfo
+					callIdents := map[*ast.Ident]bool{}
+					for _, gc := range callsIn(g.Decl.Body, true) {
+						if calleeOf(ginfo, gc) != f.Obj {
+							continue
+						}
+						if id, isID := unparen(gc.Fun).(*ast.Ident); isID {
+							callIdents[id] = true
+						}
+						n++
+						if i >= len(gc.Args) || gc.Ellipsis.IsValid() {
+							okAll = false
+							continue
+						}
+						if wy := htmlOrigin(w, ginfo, g, gc.Args[i], rawFns, depth+1, assume...); wy != "" {
+							whys = append(whys, wy)
+						} else {
+							okAll = false
+						}
+					}
+					ast.Inspect(g.Decl.Body, func(nd ast.Node) bool {
+						if id, isID := nd.(*ast.Ident); isID && ginfo.Uses[id] == types.Object(f.Obj) && !callIdents[id] {
+							okAll = false // used as a value: its callers are not known
+						}
+						return true
+					})
+				}
+				if okAll && n > 0 {
+					return "every call site passes: " + strings.Join(dedupe(whys), "; ")
+				}
 			}
 			return ""
 		}
@@ -379,8 +420,26 @@ func htmlOrigin(w *World, info *types.Info, f *FuncInfo, e ast.Expr, rawFns map[
 			as, _ = x.Init.(*ast.AssignStmt)
 		}
 		if as != nil {
+			// (an assignment that computes the new value from the old one lets the old one through)
+			usesOld := false
+			for _, rh := range as.Rhs {
+				ast.Inspect(rh, func(m ast.Node) bool {
+					if id, ok := m.(*ast.Ident); ok && info.Uses[id] == o {
+						usesOld = true
+					}
+					return true
+				})
+			}
+			// ... unless the new value is licensed whatever went in (rendered output, JSON)
+			if usesOld && len(as.Rhs) == 1 {
+				if c, ok := unparen(as.Rhs[0]).(*ast.CallExpr); ok {
+					if cal := calleeOf(info, c); cal != nil && (isRenderingFunc(cal) || funcIs(cal, "encoding/json", "Marshal")) {
+						usesOld = false
+					}
+				}
+			}
 			for _, l := range as.Lhs {
-				if objOf(info, l) == o {
+				if objOf(info, l) == o && !usesOld {
 					killPos = as.Pos()
 				}
 			}
@@ -418,7 +477,7 @@ func htmlOrigin(w *World, info *types.Info, f *FuncInfo, e ast.Expr, rawFns map[
 						// dynamic call: the partial feeder's text is rendered before use; not licensed by itself
 					default:
 						if g := w.FuncOf(cal); g != nil && g.Decl.Body != nil {
-							if wy := returnedOrigin(w, g, 0, rawFns, depth+1); wy != "" {
+							if wy := returnedOrigin(w, g, 0, rawFns, depth+1, assume...); wy != "" {
 								whys = append(whys, wy)
 								continue
 							}
@@ -443,10 +502,43 @@ func htmlOrigin(w *World, info *types.Info, f *FuncInfo, e ast.Expr, rawFns map[
 					whys = append(whys, "JS-escaped in place")
 					continue
 				}
+				// part = transform(..., part): a function of the module that returns its operand, or a licensed
+				// transformation of it, on every return -- provided what the variable held before was licensed
+				// (the other assignments are judged on their own)
+				if c, ok := unparen(rhs).(*ast.CallExpr); ok {
+					if g := w.FuncOf(calleeOf(info, c)); g != nil && g.Decl.Body != nil && !c.Ellipsis.IsValid() {
+						gsig := g.Obj.Type().(*types.Signature)
+						var through []types.Object
+						clean := true
+						for ai, a := range c.Args {
+							uses := false
+							ast.Inspect(a, func(m ast.Node) bool {
+								if id, ok := m.(*ast.Ident); ok && info.Uses[id] == o {
+									uses = true
+								}
+								return true
+							})
+							if !uses {
+								continue
+							}
+							if objOf(info, unparen(a)) != o || ai >= gsig.Params().Len() {
+								clean = false
+								continue
+							}
+							through = append(through, gsig.Params().At(ai))
+						}
+						if clean && len(through) > 0 {
+							if wy := returnedOrigin(w, g, 0, rawFns, depth+1, append(append([]types.Object(nil), assume...), through...)...); wy != "" {
+								whys = append(whys, "passed through "+g.Obj.Name()+" ("+wy+")")
+								continue
+							}
+						}
+					}
+				}
 				okAll = false
 				continue
 			}
-			if wy := htmlOrigin(w, info, f, rhs, rawFns, depth+1); wy != "" {
+			if wy := htmlOrigin(w, info, f, rhs, rawFns, depth+1, assume...); wy != "" {
 				whys = append(whys, wy)
 			} else {
 				okAll = false
@@ -471,7 +563,7 @@ var c01HTMLExceptions = map[string]string{
 
 // returnedOrigin: every return of g yields, at result position idx, a value of licensed origin
 // (the accompanying error returns with "" count as the empty string).
-func returnedOrigin(w *World, g *FuncInfo, idx int, rawFns map[*types.Func]bool, depth int) string {
+func returnedOrigin(w *World, g *FuncInfo, idx int, rawFns map[*types.Func]bool, depth int, assume ...types.Object) string {
 	if depth > 6 {
 		return ""
 	}
@@ -505,7 +597,7 @@ func returnedOrigin(w *World, g *FuncInfo, idx int, rawFns map[*types.Func]bool,
 			if h == nil || h.Decl.Body == nil {
 				return ""
 			}
-			wy := returnedOrigin(w, h, idx, rawFns, depth+1)
+			wy := returnedOrigin(w, h, idx, rawFns, depth+1, assume...)
 			if wy == "" {
 				return ""
 			}
@@ -514,7 +606,7 @@ func returnedOrigin(w *World, g *FuncInfo, idx int, rawFns map[*types.Func]bool,
 		default:
 			return ""
 		}
-		wy := htmlOrigin(w, info, g, e, rawFns, depth+1)
+		wy := htmlOrigin(w, info, g, e, rawFns, depth+1, assume...)
 		if wy == "" {
 			return ""
 		}
